@@ -70,6 +70,22 @@ def run(ctx: Ctx) -> None:
             gs = guards_at(fn, c)
             dom = any((not g.positive) and isinstance(g.test, ast.Compare) and isinstance(g.test.left, ast.Name) and g.test.left.id == depth for g in gs)
             ctx.check(dom, "I1", f"{what} dominated by the depth test", loc(c), "", f"the {what} can be reached without passing the depth test")
+    # nothing but (text, fn, depth) may travel between nesting levels: a container shared across the
+    # recursion (a cache of expanded files ...) lets text expanded at one depth be reused at another,
+    # which bypasses the depth test for the nested includes of that text
+    for cs in rec_calls:
+        b = bind_args(cs.node, fn, skip_self=True)
+        extra = {k: v for k, v in b.items() if v is not None and k not in (params[1] if len(params) > 1 else "text", "fn", depth)}
+        ctx.check(not extra, "I1", "recursive call passes only text, fn and the depth counter", loc(cs.node), "", f"the recursive call also passes {sorted(extra)}: state shared between nesting levels (e.g. a cache of expanded includes) lets text expanded at a shallow depth be spliced in deeper without re-checking the depth of its own includes")
+    # the text spliced in for an INCLUDE line is the result of the recursive call made for that line
+    splice_ok = True
+    splice_desc = []
+    for n in ast.walk(fn):
+        if isinstance(n, ast.Assign) and len(n.targets) == 1 and isinstance(n.targets[0], ast.Subscript) and isinstance(n.targets[0].value, ast.Name) and n.targets[0].value.id == "includes":
+            direct = any(n.value is r.node for r in rec_calls)
+            splice_desc.append(norm(n.value)[:60])
+            splice_ok = splice_ok and direct
+    ctx.check(splice_ok and bool(splice_desc), "I1", "replacement text is the recursive expansion of that very line", loc(fn), "", f"the replacement stored for an INCLUDE line is {splice_desc}, not the result of the recursive call for that line (at depth + 1)")
     for cs in facts.callers_of("parser.Parser.load_includes"):
         if cs.caller == "parser.Parser.load_includes":
             continue
